@@ -28,6 +28,7 @@ DEFAULT_PROFILE = {
   "temp_ids": 2,
   "meta_raw": 0,
   "cyclic_formula": 0,
+  "side_effect_formula": 0,
 }
 
 
@@ -606,7 +607,8 @@ class Gen(object):
     f = self.rng.choice(["'f' + str($id)", "$id * 100"] + (["($%s or 0) + 1000" % self.rng.choice(num)["colId"]] if num else []))
     return ["AddColumn", t["tableId"], self.new_name(),
             {"type": self.rng.choice(["Any", "Text", "Int"]), "isFormula": False, "formula": f,
-             "recalcWhen": self.rng.choice([0, 0, 1, 2]), "recalcDeps": ["L"] + deps if deps else None}]
+             # AddColumn takes the metadata values in BULK form (docmodel.insert): one encoded list
+             "recalcWhen": self.rng.choice([0, 0, 1, 2]), "recalcDeps": [["L"] + deps] if deps else None}]
 
   def g_trigger_config(self, w):
     cands = [(t, c) for t in w.user_tables() for c in w.data_cols(t) if c["formula"]]
@@ -632,6 +634,9 @@ class Gen(object):
 
   def g_meta_raw(self, w):
     return None
+
+  def g_side_effect_formula(self, w):
+    return None      # replaced by props/c29.py
 
   def g_cyclic_formula(self, w):
     """Make some formula column refer to another formula column of the same table (may close a cycle)."""
